@@ -183,8 +183,9 @@ def main(argv):
         checker_failure = "no function selected for %s" % pid
 
     # ---- report
+    EVDIR = os.environ.get("VERIF_EVIDENCE_DIR") or os.path.join(HERE, "evidence")
     os.makedirs(os.path.join(HERE, "replays"), exist_ok=True)
-    os.makedirs(os.path.join(HERE, "evidence"), exist_ok=True)
+    os.makedirs(EVDIR, exist_ok=True)
     for kf, key, name in known_hits:
         print("KNOWN-FINDING: property=%s %s (%s %s)" % (pid, kf.get("what", ""), key, name))
     vio_lines = []
@@ -248,7 +249,7 @@ def main(argv):
     evidence = {"property_id": pid, "tier": tier, "seed": seed, "level": level, "coverage": coverage,
                 "assumptions": prop.get("assumptions", []), "wall_s": round(time.time() - t0, 2),
                 "violations": len(violations)}
-    json.dump(evidence, open(os.path.join(HERE, "evidence", pid + ".json"), "w"), indent=1, default=str)
+    json.dump(evidence, open(os.path.join(EVDIR, pid + ".json"), "w"), indent=1, default=str)
 
     if update_baseline and not violations and not checker_failure and not open_unknown and not undecided and not errors:
         os.makedirs(os.path.join(HERE, "baseline"), exist_ok=True)
